@@ -58,7 +58,8 @@ fn par_compute_mask_inner(constraints: Vec<LlgConstraintStep>) {
                 match constraint.compute_mask() {
                     Ok(r) => {
                         if let Some(m) = r.sample_mask.as_ref() {
-                            num_copied = std::cmp::min(m.len(), mask_elts);
+                            // m.len() is in bits; copy at most the words that hold them
+                            num_copied = std::cmp::min(m.len().div_ceil(32), mask_elts);
                             // SAFETY: mask_dest is non-null (checked above), and
                             // mask_byte_len guarantees sufficient space.
                             unsafe {
